@@ -303,10 +303,9 @@ numpy code on every run (`apply_bilinear_corr`, `vectorised_corr`).
 
 Lifted here: `apply_bilinear` / `normsq` (with and without form, broadcasting outer shapes), the
 `(x.T * f.T).T` idiom, `poincare_to_kleinian`, `kleinian_to_poincare`, `poincare_to_halfspace`, `halfspace_to_poincare`,
-`affine_coords` / `projective_coords` in every chart, in-place `normalize`, the
+`affine_coords` / `projective_coords` in every chart, `Segment._compute_aux_data`, in-place `normalize`, the
 argument of `arccosh` in `Point.distance`.  NOT lifted by a theorem (stretch; covered by the
-per-unit oracle `points_per_unit` / `vectorised_per_unit` only): `Segment._compute_aux_data`'s
-`[..., np.newaxis]` broadcasting, `origin_to` (runs LAPACK's kernel inside `find_isometry`),
+per-unit oracle `points_per_unit` / `vectorised_per_unit` only): `origin_to` (runs LAPACK's kernel inside `find_isometry`),
 circle parameters (`arctan2`, angle sorting), fixed points (`eig`); `sl2_irrep` on arrays is lifted
 in C17 with the ND-side lemmas `entry_units` / `entrywise_units` / `stackLast_units` below. -/
 
@@ -397,6 +396,14 @@ theorem projCoords_units (a : ND K) {o : List ℕ} {n : ℕ} (ha : a.shape = o +
     (projCoordsND a c.1).shape = o ++ [n + 1] ∧
       ∀ i, Valid o i → rowAt (projCoordsND a c.1) (n + 1) i = GT.Affine.projCoords c (rowAt a n i) :=
   projCoordsND_units a ha c
+
+/-- the vectorised `Segment._compute_aux_data` (batched `@`, `products[..., i, j]`, entrywise scalar
+arithmetic, `mu[..., np.newaxis]` broadcasting, `np.stack(axis=-2)`) on a composite = C03/C11's
+`segmentIdeal` on every unit, endpoint order included -/
+theorem segmentAux_units (r : K → K) (e : ND K) {o : List ℕ} {n : ℕ} (he : e.shape = o ++ [2, n]) :
+    ∃ c, segmentAuxND r e = .ok c ∧ c.shape = o ++ [2, n] ∧
+      ∀ i, Valid o i → matAt c 2 n i = segmentIdeal (minkJ n) r (matAt e 2 n i) :=
+  segmentAuxND_units r e he
 
 /-! ND-side lemmas for lifting entrywise array formulas (indexing `a[..., i, j]`, entrywise
 arithmetic, stacking along a new trailing axis) — used for the Lie-map liftings of C17 -/
